@@ -87,6 +87,11 @@ def check(ctx):
               "`define SEL_IMPL LEAF\n`define SEL `SEL``_IMPL\n`SEL\n", "`define REG(p) p``REG\n`REG(LEAF_)\n",
               "`define A(x) x\n`define B `A(`A(`A(LEAF)))\n`B\n", "`define NAME NAME_is_LEAF\n`NAME\n"]:
         pcs.append(ppx.PC({"top.sv": t}, tag="own-name-no-cycle")); exp.append(("ok",))
+    # short chains that carry a long text (the limit is on nesting, not on size)
+    big = ", ".join("item_%d" % i for i in range(9000))          # ~100 KiB
+    pcs.append(ppx.PC({"top.sv": "`define M1(x) `M2(x)\n`define M2(x) [x] LEAF\n`M1(%s)\n" % big}, tag="long-text")); exp.append(("ok",))
+    pcs.append(ppx.PC({"top.sv": "`define TABLE %s LEAF\n`define T2 `TABLE\n`define T3 `T2\n`T3\n" % big}, tag="long-text")); exp.append(("ok",))
+    pcs.append(ppx.PC({"top.sv": '`include "m.svh"\n`M1(%s)\n' % big, "m.svh": "`define M1(x) `M2(x)\n`define M2(x) `M3(x)\n`define M3(x) x LEAF\n"}, tag="long-text")); exp.append(("ok",))
     # the same families with the other flags on
     extra = []
     for pc, e in list(zip(pcs, exp))[:: (7 if q else 3)]:
@@ -94,15 +99,19 @@ def check(ctx):
     pcs += [x[0] for x in extra]; exp += [x[1] for x in extra]
     # every case ends within seconds or not at all: a short limit, so that a run that does not return is found by bisection quickly
     slow = [i for i, pc in enumerate(pcs) if "two-routes" in (pc.tag or "")]
-    fast = [i for i in range(len(pcs)) if i not in set(slow)]
+    longs = [i for i, pc in enumerate(pcs) if (pc.tag or "").startswith("long-text")]     # implementation only: the list-based model takes minutes on 100 KiB
+    fast = [i for i in range(len(pcs)) if i not in set(slow) and i not in set(longs)]
     cases, res, diffs = ppx.correspond(ctx, "preprocess (chains and cycles) vs PP/Eval.v", [pcs[i] for i in fast], "c09", timeout=90)
     # the families in which a wrong search order can make a cycle explode are run apart, one case per process, with a tight limit
     res_slow = []
     for i in slow:
         _, r1, _ = ppx.correspond(ctx, "preprocess (cycles reachable by two routes) vs PP/Eval.v", [pcs[i]], "c09b", timeout=25)
         res_slow += r1
-    order = fast + slow
-    pcs, exp, res = [pcs[i] for i in order], [exp[i] for i in order], list(res) + res_slow
+    lcases, limpl = ppx.run_impl([pcs[i] for i in longs], "c09l", timeout=120)
+    res_long = [ppx.Res(limpl.get(c.id)) for c in lcases]
+    ctx.corr_cases += len(lcases)
+    order = fast + slow + longs
+    pcs, exp, res = [pcs[i] for i in order], [exp[i] for i in order], list(res) + res_slow + res_long
     bad = None
     for pc, e, rr in zip(pcs, exp, res):
         if rr.crash:
